@@ -70,6 +70,7 @@ fn main() {
         "measures" => vharness::pure::drive_measures(&mut cx, &hist),
         "inserttxn" => vharness::txn::drive_inserttxn(&mut cx, &hist),
         "removetxn" => vharness::txn::drive_removetxn(&mut cx, &hist),
+        "fliptxn" => vharness::txn::drive_fliptxn(&mut cx, &hist),
         _ => { eprintln!("unknown family {fam}"); std::process::exit(2); }
     }
     cx.tr.flush();
